@@ -299,6 +299,9 @@ func (p *Prog) copyLoopProps(cl *copyLoop) []string {
 		set["C01"], set["C17"], set["C11"] = true, true, true
 	default: // check / reindex / count
 		set["C07"], set["C11"] = true, true
+		if len(cl.items) > 0 {
+			set["C01"] = true // an index derived from a partial scan hides messages from every reader
+		}
 	}
 	return sortedKeys(set)
 }
